@@ -14,7 +14,8 @@ RULE = ("ints: 0<=n<2**128 from a boundary-heavy strategy plus the exhaustively 
         "carry family 57**k-1, 57**k, 57**k+1, d*57**k, 2**k-1, 2**k, 2**k+1 (part carry_enum, "
         "exhaustive); strings: valid encodings, 22-letter strings denoting >= 2**128, wrong "
         "lengths 0..40, one foreign character at every position, canonical/hex/braced/urn forms, "
-        "arbitrary text. Non-trivial = an integer with >=2 base-57 digits, or a string that is a "
+        "arbitrary text; part interleaved_calls: two threads convert different values (3 and 2 round trips), every "
+        "single-preemption schedule at opcode granularity inside ak/short_uuid.py (harness-owned scheduler). Non-trivial = an integer with >=2 base-57 digits, or a string that is a "
         "valid short form, a canonical form, or falls in a rejection class (wrong length, foreign "
         "char, overflow); distinct by value.")
 ASSUMPTIONS = [
@@ -228,9 +229,69 @@ def foreign_everywhere():
             yield {"s": s, "kind": "padded"}
 
 
+# ---------------------------------------------------------------------------
+# the same calls made by two threads: the encoding of a value does not depend on what another thread converts at the same
+# time. The harness owns the schedule (vlib.sched, opcode granularity inside ak/short_uuid.py).
+
+INTERLEAVED_VALUES = [[0x1234567890abcdef1234567890abcdef, 2 ** 128 - 1], [57 ** 21, 57 ** 21 + 1], [0, 1]]
+
+
+def _thread_fn(m, n, reps, out):
+    def fn():
+        u = _uuid.UUID(int=n)
+        for _ in range(reps):
+            s = m.uuid_to_short_str(u)
+            out.append((n, s, m.uuid_from_short_str(s).int, m.uuid_from_str(s).int))
+    return fn
+
+
+def eval_interleaved(case):
+    from vlib import sched
+    m = _mod()
+    a, b = [int(x) for x in case["values"]]
+    shim = sched.ShimThreading()
+    outs = [[], []]
+    s = sched.Scheduler(shim, "ak/short_uuid.py")
+    s.run([_thread_fn(m, a, case["reps"][0], outs[0]), _thread_fn(m, b, case["reps"][1], outs[1])], case["schedule"])
+    f = []
+    for tid, e in s.errors:
+        f.append(("thread_raises_" + type(e).__name__, f"thread {tid}: {e}; schedule={case['schedule']!r}"))
+    for tid, out in enumerate(outs):
+        for n, sh, back, back2 in out:
+            if sh != ref_encode(n):
+                f.append(("encoding_depends_on_concurrent_calls", f"thread {tid}: uuid_to_short_str({n:#x}) -> {sh!r}, expected "
+                          f"{ref_encode(n)!r}; other thread converts {(b if tid == 0 else a):#x}; schedule={case['schedule']!r}"))
+                break
+            if back != n or back2 != n:
+                f.append(("round_trip_depends_on_concurrent_calls", f"thread {tid}: {n:#x} -> {sh!r} -> {back:#x} / {back2:#x}; "
+                          f"schedule={case['schedule']!r}"))
+                break
+    return Outcome(True, ["two_threads", "preempted_after_%s_opcodes" % ("0" if case["schedule"][0][1] == 0 else "n")], f[:3],
+                   key=[case["values"], case["schedule"]], evals=sum(case["reps"]) * 3)
+
+
+def interleaved_cases():
+    """every single-preemption schedule: thread x runs k traced opcodes, the other thread runs to its end, x finishes"""
+    from vlib import sched
+    m = _mod()
+    for values in INTERLEAVED_VALUES:
+        reps = [3, 2]
+        lens = []
+        for tid in (0, 1):
+            sc = sched.Scheduler(sched.ShimThreading(), "ak/short_uuid.py")
+            sc.run([_thread_fn(m, values[tid], reps[tid], [])], [])
+            lens.append(sc.steps[0])
+        for x in (0, 1):
+            for k in range(0, lens[x] + 1):
+                yield {"values": [str(v) for v in values], "reps": reps,
+                       "schedule": [[x, k], [1 - x, sched.INF], [x, sched.INF]]}
+
+
 def parts(tier):
     k = 1 if tier == "quick" else 60
     return [
+        Part("interleaved_calls", eval_interleaved, enumerate=interleaved_cases, exhaustive=True,
+             note="two threads converting different values, every single-preemption schedule at opcode granularity"),
         Part("carry_enum", evaluate, enumerate=carry_family, exhaustive=True,
              note="complete enumeration of the digit-carry / power-of-two boundary family"),
         Part("foreign_enum", evaluate, enumerate=foreign_everywhere, exhaustive=True,
@@ -239,7 +300,7 @@ def parts(tier):
         Part("strings", evaluate, strategy=st_str, examples=30000 * k),
     ]
 
-TECHNIQUE = "property-based testing (Hypothesis) + exhaustive enumeration of the carry/boundary family, differential against an independent base-57 reference codec and uuid.UUID"
+TECHNIQUE = "property-based testing (Hypothesis) + exhaustive enumeration of the carry/boundary family and of all single-preemption two-thread schedules, differential against an independent base-57 reference codec and uuid.UUID"
 LEVEL_TEXT = ("Exploration: round trip, exact encoding and exact accept/reject (ValueError) behaviour compared with an "
               "independent reference codec on ~50k generated integers/strings per quick run (millions thorough), the "
               "57**k / 2**k boundary family and foreign-character-at-every-position family enumerated completely. "
